@@ -30,6 +30,7 @@ type fakeListener struct {
 	closed   bool
 	closes   int
 	failHard bool // after the scripted connections Accept fails with a permanent error
+	onAccept func() // runs inside Accept just before a scripted connection is returned
 }
 
 func (l *fakeListener) Accept() (net.Conn, error) {
@@ -37,6 +38,9 @@ func (l *fakeListener) Accept() (net.Conn, error) {
 		c := l.conns[0]
 		l.conns = l.conns[1:]
 		l.accepted = true
+		if l.onAccept != nil {
+			l.onAccept()
+		}
 		return c, nil
 	}
 	if l.failHard {
@@ -67,6 +71,10 @@ func VerifH_ServeTeardown() {
 	lis := &fakeListener{conns: []net.Conn{fakeConn{tr}}}
 	lis.failHard = vrt.Bool("acceptFails")
 	ctx := hx.NewCtx()
+	if vrt.Bool("cancelInsideAccept") {
+		// the context is cancelled at the very moment Accept hands out a live connection
+		lis.onAccept = func() { ctx.Cancel(context.Canceled) }
+	}
 	srv := New(idleHandler{})
 	serveDone := false
 	tornDownAtReturn := false
@@ -78,7 +86,9 @@ func VerifH_ServeTeardown() {
 	}()
 	go func() {
 		vrt.WaitFor(&lis.accepted)
-		ctx.Cancel(context.Canceled)
+		if ctx.Err() == nil {
+			ctx.Cancel(context.Canceled)
+		}
 	}()
 	vrt.Quiesce()
 	if !serveDone {
@@ -88,6 +98,7 @@ func VerifH_ServeTeardown() {
 	}
 	vrt.Assert(serveDone, "Serve returns after cancellation / accept failure")
 	vrt.Assert(tornDownAtReturn, "Serve returns only after the accepted connection has been torn down")
+	vrt.Assert(tr.Closes == 1, "an accepted connection's transport is closed exactly once")
 	vrt.Assert(lis.closed, "the listener is closed")
 	vrt.Assert(vrt.Unfinished() == 0, "no goroutine is left behind")
 	_ = serveErr
